@@ -19,6 +19,8 @@ TRUSTED = TRUSTED_M1
 
 
 def gen(seed, index):
+    if index % 1000 == 777:
+        return ["falsyleaf"]          # finding F15 (a fixed probe: a falsy leaf voice)
     rng = rng_for(PID, seed, index)
     G = g.G(rng, tags=True, tempi=True)      # containers carry tags and tempi (opaque ids in the model)
     t = G.tree(kind=rng.choice(["S", "S", "S", "P", "P", "L", None]))
@@ -239,6 +241,37 @@ def exhaustive_cases():
                 for b in range(a + 1, d + 1):
                     out.append(["split_at", t, ign, b, a])
     return out
+
+
+# ---- the fixed probe of finding F15 (a leaf voice of a falsy user class is dropped by Concurrence.split_at)
+def _probe(f, default):
+    def wrapped(case, *a):
+        if case[0] == "falsyleaf":
+            return default(case, *a) if callable(default) else default
+        return f(case, *a)
+    return wrapped
+
+
+def _probe_oracle(case, io, mo=None):
+    if is_err(io):
+        return f"[F15] split_at of a simultaneity with a falsy leaf voice raised {io[1]}"
+    if [int(x) for x in io[1]] != [2, 2]:
+        return f"[F15] Concurrence([Rest(2), Consecution([Chronon(1), Chronon(1)])]).split_at(1) with a leaf class whose instances are falsy (__len__ == 0): the parts have {sx.show(io[1])} voices, the leaf voice was lost"
+    return None
+
+
+compare = _probe(compare, None)
+oracle = _probe(oracle, _probe_oracle)
+nontrivial = _probe(nontrivial, False)
+shrink = _probe(shrink, lambda case: [])
+neighbours = _probe(neighbours, lambda case: [])
+_stats0 = stats
+stats = lambda results: _stats0([r for r in results if r["case"][0] != "falsyleaf"])      # noqa: E731
+model_case = lambda case: ["split_at", ["L", 1, 1], 0, 0] if case[0] == "falsyleaf" else case      # noqa: E731
+
+
+def known(f, case, msg, io):
+    return f.get("id") == "F15" and (msg or "").startswith("[F15]")
 
 
 from props import envrecv  # noqa: E402
